@@ -89,9 +89,9 @@ func commaOKFindings(c *Ctx, p *packages.Package, fd *ast.FuncDecl) []commaOKFin
 		label string
 	}
 	type env struct {
-		pairs []pair                // live comma-ok pairs
-		fact  map[types.Object]int  // ok variable: 1 known true, -1 known false
-		disj  [][]types.Object      // at least one of these ok variables is true
+		pairs []pair               // live comma-ok pairs
+		fact  map[types.Object]int // ok variable: 1 known true, -1 known false
+		disj  [][]types.Object     // at least one of these ok variables is true
 	}
 	clone := func(e *env) *env {
 		n := &env{pairs: append([]pair{}, e.pairs...), fact: map[types.Object]int{}, disj: append([][]types.Object{}, e.disj...)}
